@@ -359,3 +359,41 @@ Fixpoint legs_prefixes (n : nat) (legs : list limits) (os : list obs) : list (op
   | O => []
   | S n' => legs_prefixes n' legs os ++ [legs_on_stream (firstn n legs) os d_init]
   end.
+
+(* ------------------------------------------------------------------ checkpoints: save_to_file / restore_from_file
+   A checkpoint holds ONE state c (refinement state and driver arrays as saved).  restore_from_file creates a NEW copy of it -
+   however often, whenever, under whatever spelling of the path; continue_adaptive_refinement on copy i touches copy i only.
+   The store is the list of live copies (None = a copy whose call ran out of fuel). *)
+Inductive ckop := OpRestore | OpContinue (i : nat) (l : limits) (n : nat).
+
+Fixpoint upd {A} (i : nat) (f : A -> A) (l : list A) : list A :=
+  match l, i with
+  | [], _ => []
+  | x :: r, O => f x :: r
+  | x :: r, S j => x :: upd j f r
+  end.
+
+Section Checkpoint.
+  Variable St : Type.
+  Variable evaluate : St -> St.
+  Variable refine : St -> St.
+  Variable observe : St -> obs.
+
+  Definition run_legs_opt (legs : list (limits * nat)) (x : option (St * dstate)) : option (St * dstate) :=
+    match x with Some (s, d) => run_legs St evaluate refine observe legs s d | None => None end.
+
+  Fixpoint ck_exec (c : St * dstate) (ops : list ckop) (store : list (option (St * dstate))) : list (option (St * dstate)) :=
+    match ops with
+    | [] => store
+    | OpRestore :: r => ck_exec c r (store ++ [Some c])
+    | OpContinue i l n :: r => ck_exec c r (upd i (run_legs_opt [(l, n)]) store)
+    end.
+
+  (* the calls addressed to copy i, in order *)
+  Fixpoint legs_of (i : nat) (ops : list ckop) : list (limits * nat) :=
+    match ops with
+    | [] => []
+    | OpRestore :: r => legs_of i r
+    | OpContinue j l n :: r => if Nat.eqb i j then (l, n) :: legs_of i r else legs_of i r
+    end.
+End Checkpoint.
